@@ -1,8 +1,8 @@
 SPECIFICATION CexSpecR
 CONSTANTS
   Me = "p3"
-  MaxEpoch = 3
-  MaxTick = 2
+  MaxEpoch = 2
+  MaxTick = 1
   Rich = TRUE
   Shapes = {"keep", "swap"}
   Depth = 0
@@ -11,4 +11,5 @@ INVARIANTS TypeOK Inv_UniqueAddrs
 PROPERTIES MC_C08C09 MC_FinishedStable
 ACTION_CONSTRAINT Report
 VIEW SimView
+CONSTRAINT HonestFinished
 CHECK_DEADLOCK FALSE
